@@ -69,7 +69,7 @@ def run(pid, tier):
     c.notes.append("spec->code: %s" % json.dumps(s))
     decide(c, t1, "spec->code")
     t2 = vlib.workfile(pid, "trace.ndjson")
-    out = vlib.run_harness(["client", "record", "--out", t2, "--client", vlib.CLIENT_BIN, "--seed", c.seed, "--tier", tier], timeout=3000)
+    out = vlib.run_harness(["client", "record", "--out", t2, "--client", vlib.CLIENT_BIN, "--seed", c.seed, "--tier", tier], timeout=7200)
     c.notes.append("code->spec: %s" % json.dumps(out[-1] if out else {}))
     ev = decide(c, t2, "code->spec")
     for e in ev:
